@@ -459,7 +459,7 @@ def gen_all(ctx):
                     cases.append(dict(base, zones=zones, values=values, zdtype='float64', vdtype='float64', zone_ids=None,
                                       cat_ids=None, nodata=None, zchunks=[rc, cc], vchunks=[cc, rc], scheduler='synchronous'))
     # appended: irregular zones / values chunk pairs (same per-axis max, same block count, one side unchunked)
-    for i in range(30 if q else 300):
+    for i in range(21 if q else 300):
         kind = ['stats', 'xtab2', 'xtab3'][i % 3]
         c = gen_case(rng, i, kind)
         rows, cols = rng.randint(3, 8), rng.randint(2, 6)
